@@ -671,7 +671,7 @@ func c11Close(c *Ctx, a *clientAnchors) {
 		}
 		cc := cl.Common()
 		switch {
-		case isFuncCall(cc, "sync/atomic", "CompareAndSwapUint32") && a.isClientFieldAddr(cc.Args[0], "closed"):
+		case isClosedCAS(a, cc):
 			cas = cl
 		case isInvokeOf(cc, "net", "PacketConn", "Close") && a.isClientFieldLoad(cc.Value, "conn"):
 			connClose = cl
